@@ -29,7 +29,7 @@ LEVEL = "proof"
 def run(ctx):
     # further property files of C02: RowNeighbourhood (coq/Properties_C02_neigh.v), review gaps (coq/Properties_gaps1.v: legalize ->
     # from_circuit chain, interleaved histories)
-    proof_ok, proof = common.proof_status_all(ctx, "C02", ["C02_neigh", "gaps1", "C02_run"])
+    proof_ok, proof = common.proof_status_all(ctx, "C02", ["C02_neigh", "gaps1", "C02_run", "C02_checks"])
     s = ctx.seed
     harness = common.build_harness("dplace")
     driver = common.build_driver()
@@ -147,9 +147,15 @@ def run(ctx):
     from checks import c02_run as crun
     runres = crun.run_closed(ctx, 3000 if ctx.quick else 60000, ctx.seed + 90)
     crun.report(ctx, runres, "C02")
+    # the internal consistency tests (DetailedPlacement::check, IncrNetModel::check, DetailedPlacer::check): model functions vs the C++
+    # on reached and corrupted states (coq/InternalChecksDetailed.v, Properties_C02_checks.v)
+    from checks import internal_checks
+    ick = internal_checks.run_ichecks(ctx, 0, 250 if ctx.quick else 5000, ctx.seed + 71)
+    internal_checks.report(ctx, ick)
     cov = dict(proof)
     cov.update(cov_n)
     cov["closed_run_tie"] = crun.summary(runres)
+    cov.update(internal_checks.summary(ick))
     cov.update({"trusted_base": common.TRUSTED_BASE + ["the five index arrays of DetailedPlacement: modelled (MovesConcrete.v), proved to refine the per-row lists, and compared array by array (tag DC); the lists are compared through rowCells()",
                                                         "lemon NetworkSimplex (shift pass) is not modelled: legality after a shift pass follows (proved) from dual feasibility of its potentials, which is re-checked per call "
                                                         "(needs the hook coloquinte_verif_shift_hook in /repo), and the positions written are re-checked with the proved guard shift_ok"],
